@@ -25,6 +25,7 @@ RULE = (
     "hidden state); R6 after a cut run: on models whose behaviour does not depend on the absolute time (no absence lists, no task complete from the start, not FIFO) simulate(initialize_state_info=True, initialize_log_info=False) after a run cut short by max_time appends exactly the log of a fresh run; R5 warm start: the model is obtained by editing, in place, the objects of another model that has "
     "already been simulated (morph), or by swapping freshly built product/workflow/organization into a used project "
     "object (graft) - the result must equal the fresh build; R4 (thorough) the same batch of specs simulated in child processes with other "
+    'History op sim_other = an earlier run with every option set the other way (auto-task flag, rule, absence steps). '
     "PYTHONHASHSEED values. Non-trivial = the reference run has two FF/SF-linked tasks whose finish checks fall "
     "in the same step, or two competing READY/WORKING tasks with equal priority key; distinct by spec hash."
 )
@@ -56,7 +57,7 @@ CFG_N = CFG.copy(nested="free", max_wps=0, multi_parent=2)
 # models on which relation R6 applies: no absence lists, nothing complete from the start, no FIFO
 CFG_R6 = CFG.copy(worker_abs=False, project_abs=False, progress=False, rules=[0, 0, 1, 2, 3, 5, 6, 7, 8], servable=2, max_time=[60])
 
-OPS = ["sim", "sim_default", "backward", "backward_due", "backward_due", "init", "insert_remove", "resim"]
+OPS = ["sim", "sim_default", "sim_other", "sim_other", "backward", "backward_due", "backward_due", "init", "insert_remove", "resim"]
 
 
 @st.composite
@@ -86,11 +87,27 @@ def _case(draw, cfg):
     }
 
 
+# option carry-over: many automatic tasks, absence steps early in the run, the flag off in the compared run and on
+# in an earlier run on the same project object
+CFG_AUTO = CFG.copy(p_auto=2, abs_max=8, worker_abs=False, nested=False, servable=3, max_tasks=6)
+
+
+@st.composite
+def _case_auto(draw, cfg):
+    case = draw(_case(cfg))
+    o = case["spec"]["opts"]
+    o["auto_abs"] = False
+    if not o["abs"]:
+        o["abs"] = draw(st.lists(st.integers(0, 8), unique=True, min_size=1, max_size=4))
+    case["ops"] = ["sim_other"] + case["ops"][:1]
+    return case
+
+
 def strategy(tier):
     if tier == "quick":
-        return st.one_of(_case(CFG), _case(CFG), _case(CFG_N), _case(CFG_R6))
+        return st.one_of(_case(CFG), _case(CFG), _case(CFG_N), _case(CFG_R6), _case_auto(CFG_AUTO))
     big = dict(max_tasks=10, max_workers=7)
-    return st.one_of(_case(CFG.copy(**big)), _case(CFG.copy(**big)), _case(CFG_N.copy(**big)), _case(CFG_R6.copy(**big)))
+    return st.one_of(_case(CFG.copy(**big)), _case(CFG.copy(**big)), _case(CFG_N.copy(**big)), _case(CFG_R6.copy(**big)), _case_auto(CFG_AUTO.copy(max_tasks=9)))
 
 
 def budget(tier):
@@ -224,6 +241,10 @@ def check(case):
             with warnings.catch_warnings():
                 warnings.simplefilter("ignore")
                 p.simulate(max_time=spec["opts"]["max_time"])
+        elif op == "sim_other":
+            # an earlier run with every option set the other way (flag flipped, other rule, other absence steps)
+            o = spec["opts"]
+            S.simulate(p, dict(o, auto_abs=True if not o.get("auto_abs") else False, rule=(o.get("rule", 0) + 3) % 9, abs=sorted(set([1, 2, 3, 6]) ^ set(o.get("abs", [])))))
         elif op == "backward":
             S.backward_simulate(p, spec["opts"])
         elif op == "backward_due":
